@@ -39,7 +39,9 @@ package nsqadmin
 //@   modifies
 //@   onreturn optReads := optReads + 1
 
-//@ pred validS(s *httpServer) := (s != nil && s.nsqadmin != nil && s.ci != nil)
+// (round 7: the cluster client has an HTTP client - clusterinfo.New keeps the one it is given, NewHTTPServer builds one; needed by the fan-out workers, whose
+// preconditions are obligations at their `go` statements)
+//@ pred validS(s *httpServer) := (s != nil && s.nsqadmin != nil && s.ci != nil && s.ci.client != nil)
 
 // "carries an admin identity": the value of the configured ACL header equals, as a string, one of the
 // admin users; with no admin list everybody is an admin.
